@@ -129,7 +129,29 @@ def do_fail(case: Case, rng) -> str | None:  # noqa: ANN001
     from kio.serial import entity_reader, entity_writer
     from kio.serial.errors import BufferUnderflow
 
-    kind = rng.randrange(3)
+    kind = rng.randrange(4)
+    if kind == 3:
+        # the encode fails because of the *value*: every tagged field is non-default and a later one cannot be encoded (an integer out of
+        # range), so the failure happens after earlier tagged fields were staged and before anything reached the sink; else: any bad int
+        from .codec import _poison
+
+        g = gen.Gen(rng, "canonical", big_prob=0.0, max_items=3)
+        full = g.all_tags_nondefault(case.spec)
+        poisoned = None
+        if full is not None and len(case.spec.tagged) >= 2:
+            last = case.spec.tagged[-1]
+            if last.kind == "prim" and not last.array and last.ktype.startswith(("int", "uint")):
+                poisoned = dict(full)
+                poisoned[last.name] = 2**70
+        if poisoned is None:
+            poisoned = _poison(case.spec, case.tree, rng)
+        if poisoned is None:
+            return None
+        try:
+            entity_writer(case.cls)(io.BytesIO(), describe.tree_to_instance(case.spec, poisoned))
+        except Exception:  # noqa: BLE001
+            return None
+        return None
     if kind == 0 and case.ref:
         try:
             entity_reader(case.cls)(io.BytesIO(case.ref[:rng.randrange(len(case.ref))]))
